@@ -16,7 +16,8 @@ RULE = ('part 1 (complete): every code 92..255 x every count byte 0..255 x stack
         'authorises on the upgraded VM => authorises on the old VM, identical final state when the fork op did not '
         'raise, name/alias spellings compile on the upgraded VM to the bytes of the NOPn spelling on the old VM and '
         'are accepted wherever the NOPn spelling is, decompile names the op and round-trips. non-trivial (part 1) = '
-        'count != 0; (part 2) = count >= 1 with a raising predicate, or the op is nested; distinct by case tuple.')
+        'count != 0; (part 2) = count >= 1 with a raising predicate, or the op is nested; distinct by case tuple.'
+        ' Alias-free forks are installed without the aliases argument together with a sibling fork; every text case starts with a refused install after which the code must still be a NOP.')
 ASSUMPTIONS = ['old VM = pristine registries of the worker process; upgraded VM = same process after add_soft_fork, '
                'registries restored in place afterwards', 'fork ops follow the readme contract (read one signed count '
                'byte, pull that many items, raise or not)']
@@ -255,7 +256,37 @@ def check_fork_text(code, name, aliases, cnt):
         for v in vals:
             old[(ti, v)] = _compile(tpl.format(n='NOP%d' % code, v=v))
     try:
-        T.add_soft_fork(code, name, make_op('never', []), list(aliases))
+        # history: an install that is refused (the name lacks the OP_ prefix) leaves the code what it was - a NOP
+        try:
+            T.add_soft_fork(code, 'BAD' + name[3:], make_op('never', []))
+            fails.append(('fork-text/install-without-OP_-prefix-accepted', name))
+        except BaseException as e:  # noqa
+            if isinstance(e, (KeyboardInterrupt, SystemExit)):
+                raise
+        after = _compile('NOP%d x00' % code)
+        if after != bytes([code, 0]):
+            fails.append(('fork-text/code-is-no-NOP-any-more-after-a-refused-install', 'NOP%d x00 -> %r' % (code, after)))
+        else:
+            try:
+                F.run_script(bytes([code, 0]))
+                if P.decompile_script(bytes([code, 0])) != ['NOP%d d0' % code]:
+                    fails.append(('fork-text/code-is-no-NOP-any-more-after-a-refused-install', 'decompile %r' % (P.decompile_script(bytes([code, 0])),)))
+            except BaseException as e:  # noqa
+                if isinstance(e, (KeyboardInterrupt, SystemExit)):
+                    raise
+                fails.append(('fork-text/code-is-no-NOP-any-more-after-a-refused-install', 'run / decompile raises %s' % type(e).__name__))
+        if aliases:
+            T.add_soft_fork(code, name, make_op('never', []), list(aliases))
+        else:
+            # no aliases argument at all, and a second fork installed the same way at another free code: each name reaches
+            # its own code
+            T.add_soft_fork(code, name, make_op('never', []))
+            code2 = 92 + (code - 92 + 37) % 164
+            sib = 'OP_SIBLING%d' % code2
+            T.add_soft_fork(code2, sib, make_op('never', []))
+            nb = _compile('%s x00' % sib)
+            if nb != bytes([code2, 0]):
+                fails.append(('fork-text/second-fork-not-reachable-by-its-name', '%s -> %r' % (sib, nb)))
         spellings = [name, name.upper(), name.lower()] + [a for a in aliases] + [a.upper() for a in aliases] + \
                     [a.lower() for a in aliases]
         for sp in dict.fromkeys(spellings):
